@@ -190,12 +190,26 @@ class CallSites(FiniteTask):
                  model={"module": mn, "function": fn, "event": evn, "line": line})
 
 
+# "Exceptions from intervention handlers are turned into the documented failure responses or rejections": the converting
+# code is under contract in C20/C21/C13; those obligations are re-proved under this id (a change that lets a handler exception
+# through, or turns it into something else, is reported by C26 as well)
+RELABEL = {"C20/": "C26/intervention:", "C21/": "C26/intervention:", "C13/": "C26/intervention:"}
+
+
 def tasks(tier):
-    return [TriggerNotification(n) for n in (0, 1, 2, 3)] + [TriggerIntervention(), CallSites()]
+    from contracts import svc as S
+    from contracts.acse_accept import CheckIdentityTask
+    return ([TriggerNotification(n) for n in (0, 1, 2, 3)] + [TriggerIntervention(), CallSites()]
+            + [S.WrapHandlerTask("C20/"), CheckIdentityTask("C13/")] + [S.SingleScpTask(w) for w in S.SINGLE])
 
 
 def replay(rec):
     from pyvc.replay import run_replay
+    oid = rec.get("id", "")
+    if oid.startswith("C26/intervention:"):
+        # a borrowed obligation is replayed by the harness of the property it comes from
+        src = "C13" if "_check_user_identity" in oid else "C20"
+        return run_replay(src, dict(rec, id=f"{src}/" + oid[len("C26/intervention:"):]))
     return run_replay("C26", rec)
 
 
